@@ -13,6 +13,10 @@ C06 — Result completeness: every reported sample is written once, well-formed,
       owner (`Model.C06Borrow`); (ix, round 4) `startInstances` returns the number of goroutines it started
       (`Model.C06Start`), `instancePool.Run`'s three ways out and the `Engine.wait` counter (`Model.C06PoolRun`), the
       helpers every sample and byte goes through, option tables and plugin registration (regenerated).
+(x, round 6) several phout aggregators sharing the standard output (`Model.C06Shared`); (xi) who cancels the healthy
+      pools when one pool fails (`Model.C06FailCancel`); (xii) the buffered writer's non-atomic Flush and the single
+      goroutine that uses it (`Model.C06BufRace`); (xiii) `bufio.Writer.Write` and the repaired `handle` at byte level:
+      only whole lines reach the destination (`Model.C06WholeLines`).
 The tie of the models to the running code is the correspondence harness (harness/cmd/c06).
 -/
 import Pandora.Bridge.C06Phout
@@ -31,6 +35,8 @@ import Pandora.Proofs.C06Start
 import Pandora.Proofs.C06PoolRun
 import Pandora.Proofs.C06DropCount
 import Pandora.Proofs.C06ResChan
+import Pandora.Bridge.C06R6
+import Pandora.Proofs.C06WholeLines
 
 namespace Pandora.Props.C06
 open Pandora.Model.Phout Pandora.Proofs.C06
@@ -1417,5 +1423,220 @@ theorem C06_destinations_truncated :
   ⟨⟨Bridge.AggQ.phout_flags.1, Bridge.AggQ.phout_flags.2.1, Bridge.AggQ.phout_flags.2.2.1⟩, by decide⟩
 
 end Round4Shape
+
+/-! ## (x)–(xiii), round 6: the shared standard output, whole lines, who cancels the healthy pools, one goroutine per writer -/
+
+section Round6
+
+section Shared
+open Pandora.Model.C06Shared Pandora.Proofs.C06R6
+
+/-- **several pools report to the standard output** (`result: {type: phout}` without destination) — for EVERY
+interleaving of the aggregators' handling, periodic flushes and returns, any number of aggregators, in the configuration
+the regenerated facts describe (`Bridge.C06R6.sharedCfg`: the closer of a destination-less aggregator calls nothing, the
+deferred function always flushes): the shared output is never closed by an aggregator, no write is ever refused, every
+line an aggregator handled is on the output or still in ITS buffer, in order — and once its `Run` has returned, every
+line it handled is on the output, in the order it was handled, whatever the other aggregators do before or after. -/
+theorem C06_shared_stdout_complete (trace : List Ev) :
+    let st := run Bridge.C06R6.sharedCfg init trace
+    st.isOpen = true ∧ st.lost = [] ∧
+    (∀ j, ofAgg j st.handled = ofAgg j st.out ++ st.buf j) ∧
+    (∀ j, st.done j = true → ofAgg j st.out = ofAgg j st.handled) := by
+  intro st
+  have h : Inv st := by
+    show Inv (run Bridge.C06R6.sharedCfg init trace)
+    rw [Bridge.C06R6.shared_is_code]
+    exact inv_run trace inv_init
+  exact ⟨h.isOpen, h.lost, h.acct, fun j hd => by rw [h.acct j, h.doneEmpty j hd, List.append_nil]⟩
+
+/-- non-vacuity: two aggregators, the first ends while the second is still being reported to -/
+example :
+    let st := run Bridge.C06R6.sharedCfg init
+      [.handle 0 1, .handle 1 7, .flush 1, .handle 0 2, .finish 0, .handle 1 8, .finish 1]
+    st.done 0 = true ∧ st.done 1 = true ∧ st.out = [(1, 7), (0, 1), (0, 2), (1, 8)] ∧ st.isOpen = true := by
+  decide
+
+/-- the code as found before 61cfda1 (the aggregator that ends first closes `os.Stdout`): the other aggregator's lines
+are refused — "write /dev/stdout: file already closed" (harness: `kind=stdout pools=2`, `kind=proc … res=stdout2`) -/
+theorem C06_shared_stdout_closing_counterexample :
+    let st := run { closesShared := true, finalFlush := true } init [.handle 0 1, .handle 1 7, .finish 0, .finish 1]
+    st.out = [(0, 1)] ∧ st.lost = [(1, 7)] ∧ st.isOpen = false := by decide
+
+/-- a "do not close stdout" guard that leaves the deferred function before the final flush: everything handled since
+the last periodic flush is lost, for a single aggregator already (harness: `kind=stdout pools=1`) -/
+theorem C06_shared_stdout_noflush_counterexample :
+    let st := run { closesShared := false, finalFlush := false } init [.handle 0 1, .finish 0]
+    st.out = [] ∧ st.lost = [(0, 1)] ∧ st.done 0 = true := by decide
+
+end Shared
+
+section WholeLines
+open Pandora.Model.C06WholeLines Pandora.Proofs.C06WholeLines
+
+/-- **only whole lines are handed to the destination** (the repaired `handle`, 89739df; `bufio.Writer.Write` at the level
+of bytes) — for EVERY buffer size and EVERY sequence of encoded lines (each non-empty: it ends with its LF; a line may
+be longer than the buffer): when everything was handled and the final flush is done, the list of `Write` calls the
+destination saw is a grouping of the lines — each write is the concatenation of consecutive whole lines, all lines are
+there once, in order, nothing is left in the buffer. -/
+theorem C06_phout_writes_whole_lines (N : Nat) (lines : List Bytes) (hne : ∀ l ∈ lines, l ≠ []) :
+    let w := (runLines true N {} lines).flush
+    w.buf = [] ∧ ∃ groups : List (List Bytes), w.writes = groups.map List.flatten ∧ groups.flatten = lines := by
+  intro w
+  have g : Good ([] ++ lines) (runLines true N {} lines) := good_run N lines [] {} ⟨[], [], rfl, rfl, rfl⟩
+  obtain ⟨groups, pending, hw, hb, hh⟩ := good_flush g
+  have hbuf := flush_buf (runLines true N {} lines)
+  refine ⟨hbuf, groups, hw, ?_⟩
+  have hp : pending = [] := by
+    cases pending with
+    | nil => rfl
+    | cons l rest =>
+      have hl : l ∈ lines := by
+        rw [List.nil_append] at hh
+        rw [← hh]; simp
+      have h0 : (l :: rest).flatten = [] := hb.symm.trans hbuf
+      have : l = [] := by
+        simp at h0
+        exact h0.1
+      exact absurd this (hne l hl)
+  rw [hp, List.append_nil, List.nil_append] at hh
+  exact hh
+
+/-- non-vacuity: a buffer of 8 bytes, lines of 3, 6 and 11 bytes (the last one longer than the buffer) -/
+example :
+    (runLines true 8 {} [[97, 98, 10], [99, 100, 101, 102, 103, 10], [49, 50, 51, 52, 53, 54, 55, 56, 57, 48, 10]]).flush.writes =
+      [[97, 98, 10], [99, 100, 101, 102, 103, 10], [49, 50, 51, 52, 53, 54, 55, 56, 57, 48, 10]] := by decide
+
+/-- **the writes of any number of aggregators, interleaved in any way, make a well-formed file**: if every write
+(chunk) is a concatenation of whole LF-terminated, LF-free lines — `C06_phout_writes_whole_lines` — then the
+concatenation of the chunks in the order they reached the shared output splits on LF into exactly all those lines. -/
+theorem C06_shared_whole_lines (chunks : List (List Bytes)) (h : ∀ c ∈ chunks, ∀ l ∈ c, LF ∉ l) :
+    fileLines (chunks.flatMap fun c => c.flatMap (fun l => l ++ [LF])) = some chunks.flatten := by
+  have key : ∀ cs : List (List Bytes),
+      (cs.flatMap fun c => c.flatMap (fun l => l ++ [LF])) = cs.flatten.flatMap (fun l => l ++ [LF]) := by
+    intro cs
+    induction cs with
+    | nil => rfl
+    | cons c cs ih => simp [List.flatMap_cons, List.flatten_cons, List.flatMap_append, ih]
+  rw [key]
+  exact fileLines_of_lines chunks.flatten (by
+    intro b hb
+    obtain ⟨c, hc, hbc⟩ := List.mem_flatten.mp hb
+    exact h c hc b hbc)
+
+/-- the `handle` as found before 89739df: with a buffer of 4 bytes the lines "ab⏎", "cd⏎" reach the destination as
+"ab⏎c" and "d⏎"; another aggregator's "x⏎" written in between makes the file "ab", "cx", "d": two lines nobody
+reported (harness: `kind=stdout pools=3 … buf=4096`, 105 such lines of 4950) -/
+theorem C06_phout_torn_line_counterexample :
+    (runLines false 4 {} [[97, 98, 10], [99, 100, 10]]).flush.writes = [[97, 98, 10, 99], [100, 10]] ∧
+    fileLines ([97, 98, 10, 99] ++ [120, 10] ++ [100, 10]) = some [[97, 98], [99, 120], [100]] := by decide
+
+end WholeLines
+
+section FailCancel
+open Pandora.Model.C06FailCancel Pandora.Proofs.C06R6
+
+/-- **one pool fails while others are still shooting** — for every number of pools, every event order, in the
+configuration the regenerated facts describe (`Bridge.C06R6.failCfg`): from the moment the main goroutine has taken the
+engine's error (and starts to wait, bounded by the 3 s timer) the context of the healthy pools IS cancelled; once it is
+cancelled every pool that has not ended can end (its aggregator drains, flushes, closes), and when all have ended the
+process leaves through `pandora.Wait()` with everything flushed — the timer is never the only way out. -/
+theorem C06_failcancel_healthy_pools_cancelled (n : Nat) (se : Nat → Bool) (trace : List Ev) :
+    let st := run Bridge.C06R6.failCfg (init n se) trace
+    (st.errsTaken = true → st.cancelled = true) ∧
+    (st.cancelled = true → st.exit = none → ∀ j, j < st.n →
+      (step Bridge.C06R6.failCfg st (.poolEnds j)).ended j = true) ∧
+    (st.errsTaken = true → st.exit = none → st.allEnded = true →
+      (step Bridge.C06R6.failCfg st .waitReturns).exit = some true) := by
+  intro st
+  have h : FInv Bridge.C06R6.failCfg st := finv_run trace (finv_init _ n se)
+  refine ⟨?_, ?_, ?_⟩
+  · intro he
+    rcases Bridge.C06R6.fail_cancel_source with h1 | h1
+    · exact h.i2 (h.i1 he) h1
+    · exact h.i3 he h1
+  · intro hc hx j hj
+    simp [step, hc, hx, hj, setAt]
+  · intro he hx ha
+    simp [step, he, hx, ha]
+
+/-- each of the three cancels alone is enough once `runEngine` has returned (they are redundant: removing one of them
+is harmless, removing all of them is `C06_failcancel_nobody_counterexample`) -/
+theorem C06_failcancel_any_source (cfg : Cfg) (hsrc : cfg.anySource = true) (n : Nat) (se : Nat → Bool)
+    (trace : List Ev) :
+    let st := run cfg (init n se) trace
+    st.runEngineDone = true → st.cancelled = true := by
+  intro st hd
+  have h : FInv cfg st := finv_run trace (finv_init _ n se)
+  have he := h.i5 hd
+  simp only [Cfg.anySource, Bool.or_eq_true] at hsrc
+  rcases hsrc with (h1 | h1) | h1
+  · exact h.i2 (h.i1 he) h1
+  · exact h.i3 he h1
+  · exact h.i4 hd h1
+
+/-- non-vacuity: pool 0 fails, pool 1 is healthy and would shoot for hours: it is cancelled, ends, the exit is flushed -/
+example :
+    let st := run Bridge.C06R6.failCfg (init 2 (fun _ => false))
+      [.poolFails 0, .engineReturns, .takeErrs, .runEngineReturns, .poolEnds 0, .poolEnds 1, .waitReturns]
+    st.errsTaken = true ∧ st.cancelled = true ∧ st.ended 1 = true ∧ st.exit = some true := by decide
+
+/-- **nobody cancels** (both redundant cancels removed — `Engine.Run` "the caller owns ctx", cli.go "Engine.Run cancels
+what it started"): a healthy pool whose schedule goes on never ends, and EVERY exit of the process is without its
+final flush (the 3 s timer) — whatever the event order. -/
+theorem C06_failcancel_nobody_counterexample (trace : List Ev) (hne : ∀ e ∈ trace, e ≠ .poolFails 1) :
+    let st := run noCancel (init 2 (fun _ => false)) trace
+    st.ended 1 = false ∧ ∀ x, st.exit = some x → x = false := by
+  intro st
+  have h : NInv st := ninv_run trace ⟨rfl, rfl, rfl, rfl, rfl, by intro x hx; simp [init] at hx⟩ hne
+  exact ⟨h.ne, h.ex⟩
+
+/-- … and such an exit is reached -/
+example :
+    (run noCancel (init 2 (fun _ => false)) [.poolFails 0, .engineReturns, .takeErrs, .poolEnds 0, .poolEnds 1,
+      .waitReturns, .timerFires]).exit = some false := by decide
+
+end FailCancel
+
+section BufRace
+open Pandora.Model.C06BufRace Pandora.Proofs.C06R6
+
+/-- **one goroutine per buffered writer** — when every `Flush` completes before the next `Write` starts (phout's `Run`:
+regenerated, no `go` statement in `Run`/`handle`, no other function touches the writer), for every sequence of writes
+and flushes: the writer never gets its sticky error, no line is refused, destination ++ buffer is exactly what was
+written, in order. -/
+theorem C06_writer_single_goroutine_exact (trace : List Ev) (hs : Sequential trace) :
+    let st := run {} trace
+    st.err = false ∧ st.refused = [] ∧ st.out ++ st.buf = st.written := by
+  intro st
+  obtain ⟨_, he, hw, hr⟩ := seq_ok trace {} hs rfl rfl rfl
+  exact ⟨he, hr, hw⟩
+
+example : Sequential [.write 1, .flushBegin, .flushEnd, .write 2, .write 3, .flushBegin, .flushEnd] ∧
+    (run {} [.write 1, .flushBegin, .flushEnd, .write 2, .write 3, .flushBegin, .flushEnd]).out = [1, 2, 3] := by
+  constructor
+  · simp [Sequential]
+  · decide
+
+/-- a flusher goroutine of its own ("no timer per handled sample"): a `Write` between the two halves of a `Flush`
+makes `Flush` see `n < b.n` — sticky `io.ErrShortWrite`, every later line is refused, `Run` ends with "short write"
+(harness: `kind=queue agg=phout … dur= wslow=`; the race build reports the data race) -/
+theorem C06_writer_concurrent_flush_counterexample :
+    let st := run {} [.write 1, .flushBegin, .write 2, .flushEnd, .write 3]
+    st.err = true ∧ st.refused = [3] ∧ st.out = [1] ∧ st.buf = [2] := by decide
+
+end BufRace
+
+open Pandora.Gen.AggQ in
+/-- the code is what the round-6 models were written from (regenerated facts, gen/area_aggq_r6.go) -/
+theorem C06_source_shape_round6 :
+    Bridge.C06R6.sharedCfg = Proofs.C06R6.codeCfg ∧
+    (phoutDeferFlushes = true ∧ phoutDeferCloses = true) ∧
+    (phoutRunGoStmts = 0 ∧ phoutWriterUsers = ["Run", "handle"]) ∧
+    (Bridge.C06R6.failCfg.engineCancels = true ∨ Bridge.C06R6.failCfg.cliCancels = true) ∧
+    phoutHandle = Bridge.AggQ.phoutHandleExpected :=
+  ⟨Bridge.C06R6.shared_is_code, Bridge.C06R6.phout_defer_closes, Bridge.C06R6.writer_single_goroutine,
+   Bridge.C06R6.fail_cancel_source, Bridge.AggQ.phoutHandle_eq⟩
+
+end Round6
 
 end Pandora.Props.C06
